@@ -346,7 +346,7 @@ impl<'a> IrEmitter<'a> {
             IrDeclKind::Struct(s) => self.emit_struct(s),
             IrDeclKind::Enum(e) => self.emit_enum(e),
             IrDeclKind::TypeAlias { name, ty } => {
-                let name_ident = format_ident!("{}", name);
+                let name_ident = format_ident!("{}", Self::escape_keyword(name));
                 let ty_tokens = self.emit_type(ty);
                 Ok(quote! {
                     type #name_ident = #ty_tokens;
@@ -362,7 +362,7 @@ impl<'a> IrEmitter<'a> {
                 self.validate_const_emittable(name, ty, value)?;
 
                 let vis = self.emit_visibility(visibility);
-                let name_ident = format_ident!("{}", name);
+                let name_ident = format_ident!("{}", Self::escape_keyword(name));
                 let ty_tokens = self.emit_type(ty);
 
                 // If this is a FrozenList/Set/Dict with literal initializer, emit via FrozenX::new(&[...]).
@@ -490,7 +490,7 @@ impl<'a> IrEmitter<'a> {
                 let path_ts = join_path_tokens(&path_tokens);
 
                 if let Some(alias_name) = alias {
-                    let alias_ident = format_ident!("{}", alias_name);
+                    let alias_ident = format_ident!("{}", Self::escape_keyword(alias_name));
                     Ok(quote! {
                         use #path_ts as #alias_ident;
                     })
@@ -498,11 +498,11 @@ impl<'a> IrEmitter<'a> {
                     let item_stmts: Vec<TokenStream> = items
                         .iter()
                         .map(|item| {
-                            let name_ident = format_ident!("{}", &item.name);
+                            let name_ident = format_ident!("{}", Self::escape_keyword(&item.name));
                             let path_tokens_clone = path_tokens.clone();
                             let path_ts_clone = join_path_tokens(&path_tokens_clone);
                             if let Some(alias) = &item.alias {
-                                let alias_ident = format_ident!("{}", alias);
+                                let alias_ident = format_ident!("{}", Self::escape_keyword(alias));
                                 quote! { use #path_ts_clone :: #name_ident as #alias_ident; }
                             } else {
                                 quote! { use #path_ts_clone :: #name_ident; }
@@ -524,7 +524,7 @@ impl<'a> IrEmitter<'a> {
     }
 
     fn emit_trait(&self, trait_decl: &super::super::decl::IrTrait) -> Result<TokenStream, EmitError> {
-        let name = format_ident!("{}", &trait_decl.name);
+        let name = format_ident!("{}", Self::escape_keyword(&trait_decl.name));
         let methods: Vec<TokenStream> = trait_decl
             .methods
             .iter()
@@ -539,7 +539,7 @@ impl<'a> IrEmitter<'a> {
     }
 
     fn emit_trait_method(&self, func: &super::super::decl::IrFunction) -> Result<TokenStream, EmitError> {
-        let name = format_ident!("{}", &func.name);
+        let name = format_ident!("{}", Self::escape_keyword(&func.name));
 
         let params: Vec<TokenStream> = func
             .params
@@ -551,7 +551,7 @@ impl<'a> IrEmitter<'a> {
                         super::super::types::Mutability::Immutable => quote! { &self },
                     }
                 } else {
-                    let pname = format_ident!("{}", &p.name);
+                    let pname = format_ident!("{}", Self::escape_keyword(&p.name));
                     let pty = self.emit_type(&p.ty);
                     quote! { #pname: #pty }
                 }
@@ -584,7 +584,7 @@ impl<'a> IrEmitter<'a> {
     }
 
     fn emit_impl(&self, impl_block: &super::super::decl::IrImpl) -> Result<TokenStream, EmitError> {
-        let target_type = format_ident!("{}", &impl_block.target_type);
+        let target_type = format_ident!("{}", Self::escape_keyword(&impl_block.target_type));
 
         let mut regular_methods = Vec::new();
         let mut trait_impls = Vec::new();
@@ -681,7 +681,7 @@ impl<'a> IrEmitter<'a> {
                         let mut init_fields: Vec<TokenStream> = Vec::new();
 
                         for fname in field_names {
-                            let f_ident = format_ident!("{}", fname);
+                            let f_ident = format_ident!("{}", Self::escape_keyword(&fname));
                             if let Some(default_expr) = self
                                 .struct_field_defaults
                                 .get(&(impl_block.target_type.clone(), fname.clone()))
@@ -720,7 +720,7 @@ impl<'a> IrEmitter<'a> {
                     .filter(|m| !matches!(m.name.as_str(), "__eq__" | "__str__" | "__class_name__" | "__fields__"))
                     .map(|m| self.emit_trait_method(m))
                     .collect::<Result<_, _>>()?;
-                let trait_ident = format_ident!("{}", trait_name);
+                let trait_ident = format_ident!("{}", Self::escape_keyword(trait_name));
                 quote! {
                     impl #trait_ident for #target_type {
                         #(#trait_methods)*
@@ -736,7 +736,7 @@ impl<'a> IrEmitter<'a> {
                 quote! {}
             }
         } else if let Some(trait_name) = &impl_block.trait_name {
-            let trait_ident = format_ident!("{}", trait_name);
+            let trait_ident = format_ident!("{}", Self::escape_keyword(trait_name));
             quote! {
                 impl #trait_ident for #target_type {}
             }
@@ -751,7 +751,7 @@ impl<'a> IrEmitter<'a> {
     }
 
     fn emit_method(&self, func: &super::super::decl::IrFunction) -> Result<TokenStream, EmitError> {
-        let name = format_ident!("{}", &func.name);
+        let name = format_ident!("{}", Self::escape_keyword(&func.name));
         let vis = self.emit_visibility(&func.visibility);
         let mutated_params = self.collect_mutated_params(func);
 
@@ -765,7 +765,7 @@ impl<'a> IrEmitter<'a> {
                         super::super::types::Mutability::Immutable => quote! { &self },
                     }
                 } else {
-                    let pname = format_ident!("{}", &p.name);
+                    let pname = format_ident!("{}", Self::escape_keyword(&p.name));
                     let pty = self.emit_type(&p.ty);
                     let needs_mut = mutated_params.contains(&p.name)
                         || matches!(p.mutability, super::super::types::Mutability::Mutable);
@@ -801,7 +801,7 @@ impl<'a> IrEmitter<'a> {
     }
 
     fn emit_function(&self, func: &super::super::decl::IrFunction) -> Result<TokenStream, EmitError> {
-        let name = format_ident!("{}", &func.name);
+        let name = format_ident!("{}", Self::escape_keyword(&func.name));
         let is_main = func.name == conventions::ENTRYPOINT_NAME;
         let mutated_params = self.collect_mutated_params(func);
 
@@ -943,7 +943,7 @@ impl<'a> IrEmitter<'a> {
                 .fields
                 .iter()
                 .map(|f| {
-                    let fname = format_ident!("{}", &f.name);
+                    let fname = format_ident!("{}", Self::escape_keyword(&f.name));
                     let fty = self.emit_type(&f.ty);
                     let fvis = self.emit_visibility(&f.visibility);
                     quote! { #fvis #fname: #fty }
@@ -955,7 +955,7 @@ impl<'a> IrEmitter<'a> {
                     .fields
                     .iter()
                     .map(|f| {
-                        let fname = format_ident!("{}", &f.name);
+                        let fname = format_ident!("{}", Self::escape_keyword(&f.name));
                         let fty = self.emit_type(&f.ty);
                         quote! { #fname: #fty }
                     })
@@ -964,7 +964,7 @@ impl<'a> IrEmitter<'a> {
                     .fields
                     .iter()
                     .map(|f| {
-                        let fname = format_ident!("{}", &f.name);
+                        let fname = format_ident!("{}", Self::escape_keyword(&f.name));
                         quote! { #fname }
                     })
                     .collect();
@@ -993,14 +993,14 @@ impl<'a> IrEmitter<'a> {
     }
 
     fn emit_enum(&self, e: &super::super::decl::IrEnum) -> Result<TokenStream, EmitError> {
-        let name = format_ident!("{}", &e.name);
+        let name = format_ident!("{}", Self::escape_keyword(&e.name));
         let vis = self.emit_visibility(&e.visibility);
 
         let variants: Vec<TokenStream> = e
             .variants
             .iter()
             .map(|v| {
-                let vname = format_ident!("{}", &v.name);
+                let vname = format_ident!("{}", Self::escape_keyword(&v.name));
                 match &v.fields {
                     super::super::decl::VariantFields::Unit => quote! { #vname },
                     super::super::decl::VariantFields::Tuple(types) => {
@@ -1011,7 +1011,7 @@ impl<'a> IrEmitter<'a> {
                         let field_tokens: Vec<_> = fields
                             .iter()
                             .map(|f| {
-                                let fname = format_ident!("{}", &f.name);
+                                let fname = format_ident!("{}", Self::escape_keyword(&f.name));
                                 let fty = self.emit_type(&f.ty);
                                 quote! { #fname: #fty }
                             })
@@ -1045,7 +1045,7 @@ impl<'a> IrEmitter<'a> {
             .variants
             .iter()
             .map(|v| {
-                let vname = format_ident!("{}", &v.name);
+                let vname = format_ident!("{}", Self::escape_keyword(&v.name));
                 let vname_str = &v.name;
                 match &v.fields {
                     super::super::decl::VariantFields::Unit => {
